@@ -366,7 +366,8 @@ def c12_purity(tier, seed):
             except Exception as e:
                 msgs = ["history raised %s: %s" % (type(e).__name__, e)]
             if msgs:
-                fails.append(fail("api_calls_pure", "%s%s" % (sid, list(path)), msgs, {"source": src, "path": list(path)}))
+                from . import findings
+                fails.append(fail("api_calls_pure", "%s%s" % (sid, list(path)), msgs, {"source": src, "path": list(path)}, findings.input_tags(code)))
         samples.append(sid)
     for sid, cd in _c12_handbuilt():
         evals += 12
